@@ -234,6 +234,41 @@ theorem ruleUnits_sound {isU : OpK → R → Bool}
       | mul => simp [binFold_mul, this]
   · exact hfilter ts
 
+/-- **`unit_removal_keeps_reduce`**: whatever the unit-removal step drops, its result is again a
+    Contraction with the SAME reduction (`red`, `vars`) and `bin`, over a NON-EMPTY operand list — when
+    every operand was the unit, one unit is re-wrapped, so the pending reduction (multiplicity `|vars|`) is
+    kept.  Together with `ruleUnits_sound` this is why the step preserves the value. -/
+theorem unit_removal_keeps_reduce {isU : OpK → R → Bool} {red bin : OpK} {vars : List Name}
+    {ts : List (Ex R)} (hne : ts ≠ []) {t' : Ex R} (h : ruleUnits isU (.contr red bin vars ts) = some t') :
+    ∃ ts', t' = .contr red bin vars ts' ∧ ts' ≠ [] ∧ ∀ x ∈ ts', x ∈ ts := by
+  simp only [ruleUnits] at h
+  split at h
+  swap
+  · exact absurd h (by simp)
+  simp only [Option.some.injEq] at h
+  refine ⟨_, h.symm, ?_, ?_⟩
+  · split
+    · cases ts with
+      | nil => exact absurd rfl hne
+      | cons a as => simp
+    · rename_i hne2
+      intro e; rw [e] at hne2; simp at hne2
+  · intro x hx
+    split at hx
+    · exact List.mem_of_mem_take hx
+    · exact (List.mem_filter.mp hx).1
+
+/-- **Dropping the reduction is unsound**: `Contraction(add, mul, {i}, 1, 1)` with `|i| = 3`.  The rule
+    re-wraps one unit and keeps `Σ_i 1 = 3`; returning the bare unit gives `1` (seeded defect C08_13). -/
+theorem drop_reduce_unsound_witness :
+    let size : Name → Nat := fun _ => 3
+    let isU : OpK → Nat → Bool := fun op c => if op = .mul then c == 1 else c == 0
+    let t : Ex Nat := .contr .add .mul ["i"] [.num 1, .num 1]
+    ∃ t₁ t₂, ruleUnits isU t = some t₁ ∧ ruleUnitsDropReduce isU t = some t₂
+      ∧ t.eval (sr Nat) size (fun _ => 0) = 3 ∧ t₁.eval (sr Nat) size (fun _ => 0) = 3
+      ∧ t₂.eval (sr Nat) size (fun _ => 0) = 1 :=
+  ⟨_, _, rfl, rfl, by decide, by decide, by decide⟩
+
 /-- With the entries swapped (as `UNITS[and_]`/`UNITS[or_]` were before 5eb0eed) the rule changes values. -/
 theorem ruleUnits_wrong_table_witness :
     let isU : OpK → Nat → Bool := fun op c => if op = .mul then c == 0 else c == 1   -- swapped
